@@ -6,6 +6,7 @@ package gabi
 
 import (
 	"slices"
+	"sync"
 
 	"github.com/go-errors/errors"
 	"github.com/privacybydesign/gabi/big"
@@ -192,12 +193,27 @@ func (ic *Credential) CreateDisclosureProofBuilder(
 	return d, nil
 }
 
+// nonrevCacheInit guards the lazy creation of Credential.nonrevCache, which may be raced for by
+// NonrevPrepareCache() and concurrent disclosure proof builders using the same Credential.
+var nonrevCacheInit sync.Mutex
+
+// nonrevCacheChan returns the nonrevocation proof builder cache of the credential, creating it
+// first if create is true and it does not exist yet (otherwise nil may be returned).
+func (ic *Credential) nonrevCacheChan(create bool) chan *NonRevocationProofBuilder {
+	nonrevCacheInit.Lock()
+	defer nonrevCacheInit.Unlock()
+	if ic.nonrevCache == nil && create {
+		ic.nonrevCache = make(chan *NonRevocationProofBuilder, 1)
+	}
+	return ic.nonrevCache
+}
+
 func (ic *Credential) nonrevConsumeBuilder() (*NonRevocationProofBuilder, error) {
 	// Using either the channel value or a new one ensures that our output is used at most once,
 	// lest we totally break security: reusing randomizers in a second session makes it possible
 	// for the verifier to compute our revocation witness e from the proofs
 	select {
-	case b := <-ic.nonrevCache:
+	case b := <-ic.nonrevCacheChan(false):
 		return b, b.UpdateCommit(ic.NonRevocationWitness)
 	default:
 		return ic.NonrevBuildProofBuilder()
@@ -211,13 +227,11 @@ func (ic *Credential) NonrevPrepareCache() error {
 	if ic.NonRevocationWitness == nil {
 		return nil
 	}
-	if ic.nonrevCache == nil {
-		ic.nonrevCache = make(chan *NonRevocationProofBuilder, 1)
-	}
+	cache := ic.nonrevCacheChan(true)
 	var b *NonRevocationProofBuilder
 	var err error
 	select {
-	case b = <-ic.nonrevCache:
+	case b = <-cache:
 		Logger.Trace("updating existing nonrevocation commitment")
 		err = b.UpdateCommit(ic.NonRevocationWitness)
 	default:
@@ -231,7 +245,7 @@ func (ic *Credential) NonrevPrepareCache() error {
 	// put it back in the channel, waiting to be consumed by nonrevConsumeBuilder()
 	// if the channel has already been populated by another goroutine in the meantime we just discard
 	select {
-	case ic.nonrevCache <- b:
+	case cache <- b:
 	default:
 	}
 
